@@ -458,6 +458,11 @@ static json gen_histnew() {
     if (std::fabs(v) > 1e308) v = v > 0 ? 1e308 : -1e308;
     vals.push_back({v, dyadic_weight()});
   }
+  // weights in physical units (charges of 1.6e-19 C, masses in kg): one common power-of-two factor, all sums stay exact
+  if (rbool(20)) {
+    double f = std::ldexp(1.0, -pick<int>({20, 40, 62, 70, 90, 200}));
+    for (auto &vw : vals) vw[1] = vw[1].get<double>() * f;
+  }
   return json{{"min", mn}, {"max", mx}, {"nbins", n}, {"periodic", periodic}, {"values", vals}, {"normalize", rbool(40)},
               {"history", rbool(30) ? ri(1, 2) : 0}, {"via_range", rbool(30)}};
 }
@@ -595,6 +600,27 @@ static Result run_legacy(const json &c) {
     }
   }
   if (constant && op.auto_interval_) return r;  // zero-length range: no bins to speak of
+  // normalisation for every scaling / periodic flavour: whatever the bins hold, sum(pdf) * interval = 1 (all terms are
+  // non-negative, so the sum is well conditioned: n + 8 roundings)
+  if (op.normalize_ && n >= 2) {
+    const std::vector<double> &q = h.getPdf();
+    bool usable = true;
+    long double sum = 0;
+    for (double v : q) {
+      if (!std::isfinite(v) || v < 0) usable = false;
+      sum += v;
+    }
+    long double interval = ((long double)h.getMax() - (long double)h.getMin()) / (long double)(n - 1);
+    if (usable && sum > 0 && interval > 0) {
+      r.cls("normalised-integral-checked(scale:" + op.scale_ + (op.periodic_ ? ",periodic)" : ")"));
+      if (fabsl(sum * interval - 1.0L) > (n + 8) * 2.3e-16L) {
+        r.fail("Histogram::Normalize/integral", fmt("scale=%s%s: sum*interval = %.17Lg (n=%ld)", op.scale_.c_str(), op.periodic_ ? " periodic" : "",
+                                                   sum * interval, n));
+        return r;
+      }
+    } else
+      r.cls("normalised-integral-not-defined(empty or non-finite bins)");
+  }
   // bin contents: only where the statement defines them (no scaling, non-periodic)
   if (op.scale_ == "no" && !op.periodic_) {
     std::vector<long> lo(size_t(n), 0), amb(size_t(n), 0);
